@@ -189,7 +189,7 @@ async fn one_case(server: &Endpoint<Server>, client: &Endpoint<Client>, dnslog: 
 
 pub fn run(args: &Args) -> Report {
     let mut rep = Report::new();
-    let n: u64 = if args.thorough { 5000 } else { 300 };
+    let n: u64 = if args.thorough { 8000 } else { 1200 };
     let lanes = 8u64;
     for multi in [true, false] {
         let rt = crate::runtime(multi, 4);
